@@ -184,9 +184,16 @@ func (t *Total) Negate() *Total {
 	for _, ct := range nt.Categories {
 		ct.Amount = ct.Amount.Negate()
 		ct.amount = ct.amount.Negate()
+		if ct.Surcharge != nil {
+			s := ct.Surcharge.Negate()
+			ct.Surcharge = &s
+		}
 		for _, rt := range ct.Rates {
 			rt.Base = rt.Base.Negate()
 			rt.Amount = rt.Amount.Negate()
+			if rt.Surcharge != nil {
+				rt.Surcharge.Amount = rt.Surcharge.Amount.Negate()
+			}
 		}
 	}
 	nt.Sum = t.Sum.Negate()
